@@ -8,12 +8,16 @@ pid = sys.argv[2] if len(sys.argv) > 2 and not sys.argv[2].startswith('--') else
 tier = sys.argv[sys.argv.index('--tier') + 1] if '--tier' in sys.argv else 'quick'
 d = '/verif/seeded/' + name
 assert subprocess.run('git -C /repo status --porcelain -- chi', shell=True, capture_output=True, text=True).stdout.strip() == '', 'repo dirty'
+ev = '/verif/evidence/%s.json' % pid
+saved = open(ev).read() if os.path.exists(ev) else None
 subprocess.run('git -C /repo apply %s/patch.diff' % d, shell=True, check=True)
 try:
     p = subprocess.run('./check %s --tier %s' % (pid, tier), shell=True, cwd='/verif', stdout=subprocess.PIPE,
                        stderr=subprocess.STDOUT, text=True, timeout=7200)
 finally:
     subprocess.run('git -C /repo checkout -- chi', shell=True, check=True)
+    if saved is not None:
+        open(ev, 'w').write(saved)   # evidence of a seeded run is never kept
 viol = [l for l in p.stdout.splitlines() if l.startswith('VIOLATION')]
 print(p.stdout[-1500:])
 m = json.load(open(d + '/meta.json'))
